@@ -11,6 +11,8 @@ Monitors:
 from .. import common
 
 common.setup_env()
+import collections  # noqa: E402
+import random  # noqa: E402
 import spydrnet as sdn  # noqa: E402
 from spydrnet.callback.callback_listener import CallbackListener  # noqa: E402
 from spydrnet.ir.outerpin import OuterPin as BaseOuterPin  # noqa: E402
@@ -141,13 +143,20 @@ class Shadow(CallbackListener):
         self.keep.append(e)
         self.data.setdefault(id(e), {})[k] = v
 
-    def dictionary_delete(self, e, k):
+    def _data_removal(self, e, k, how):
         self._note()
-        self.data.setdefault(id(e), {}).pop(k, None)
+        m = self.data.setdefault(id(e), {})
+        # the mirror built from the earlier announcements and the element itself agree on whether the key is there NOW; if the
+        # mirror has already lost it, this change was announced before (one change, two announcements)
+        self._pf("%s of a data key announced although an earlier announcement already removed it from the mirror" % how,
+                 (k in m) == (k in e))
+        m.pop(k, None)
+
+    def dictionary_delete(self, e, k):
+        self._data_removal(e, k, "delete")
 
     def dictionary_pop(self, e, k):
-        self._note()
-        self.data.setdefault(id(e), {}).pop(k, None)
+        self._data_removal(e, k, "pop")
 
     # comparison with the real universe
     def compare(self, u):
@@ -239,6 +248,7 @@ class Passive(CallbackListener):
 
     def __init__(self):
         self.n = 0
+        self.per = collections.Counter()
         super().__init__()
 
 
@@ -248,6 +258,7 @@ def _mk_passive():
     def mk(name):
         def f(self, *a, **k):
             self.n += 1
+            self.per[name] += 1
         f.__name__ = name
         return f
     for n in names:
@@ -256,6 +267,30 @@ def _mk_passive():
 
 
 _mk_passive()
+HOOK_NAMES = [n for n in dir(CallbackListener) if not n.startswith("_") and not n.startswith(("register", "deregister")) and
+              callable(getattr(CallbackListener, n))]
+
+
+def make_partial(rng):
+    """A listener class that overrides only SOME hooks (as user listeners do); counts per hook."""
+    chosen = sorted(rng.sample(HOOK_NAMES, rng.randint(1, max(1, len(HOOK_NAMES) // 2))))
+
+    class Partial(CallbackListener):
+        def __init__(self):
+            self.per = collections.Counter()
+            self.n = 0
+            super().__init__()
+
+    def mk(name):
+        def f(self, *a, **k):
+            self.per[name] += 1
+            self.n += 1
+        f.__name__ = name
+        return f
+    for nm in chosen:
+        setattr(Partial, nm, mk(nm))
+    Partial.chosen = chosen
+    return Partial
 
 
 def canon_state(u):
@@ -284,8 +319,10 @@ def one_run(seed_rng_state, nsteps, policy, extra):
     rng = random.Random()
     rng.setstate(seed_rng_state)
     listeners = []
+    partial = None
     if extra:
         listeners = [Passive() for _ in range(extra)]
+        partial = make_partial(random.Random(extra * 7919 + nsteps))()
     eng = gen_ops.Engine(rng, "listen", policy, fences=FENCES)
     toggled = Passive() if extra else None
     state = {"on": bool(toggled)}
@@ -319,6 +356,17 @@ def one_run(seed_rng_state, nsteps, policy, extra):
                     c_ = getattr(gcb, name)
                     if name.startswith("_container_") and isinstance(c_, list):
                         c_[:] = [m_ for m_ in c_ if getattr(m_, "__self__", None) is not l]
+    if partial is not None:
+        try:
+            partial.deregister_all_listeners()
+        except Exception as ex:  # noqa: BLE001
+            problems.append("deregister_all_listeners() of a listener that overrides only %s raised %r at %s" % (partial.chosen[:4], ex, probes.innermost_frame(ex)))
+        if listeners:
+            for nm in partial.chosen:
+                if partial.per[nm] != listeners[0].per[nm]:
+                    problems.append("a listener overriding only some hooks was told %d x %s, a listener overriding all hooks %d x" % (
+                        partial.per[nm], nm, listeners[0].per[nm]))
+                    break
     if len(set(l.n for l in listeners)) > 1:
         problems.append("listeners registered for the whole run were told different numbers of changes: %s" % [l.n for l in listeners])
     return [(e[1], e[2], e[3]) for e in eng.log], canon_state(eng.u), sum(l.n for l in listeners), problems
@@ -336,7 +384,8 @@ def run_case(ctx, i, rng):
             b = one_run(st, n, policy, 1 + i % 3)
             ctx.count("differential_runs")
             if b[3]:
-                ctx.violation("listener-bookkeeping:%s" % ("deregistration-raised" if "raised" in b[3][0] else "unequal-notification-counts"),
+                ctx.violation("listener-bookkeeping:%s" % ("deregistration-raised" if "raised" in b[3][0] else "unequal-notification-counts"
+                                                           if "different numbers" in b[3][0] else "partial-listener-told-differently"),
                               "%s (with %d extra passive listeners and one listener toggled on and off)" % (b[3][0], 1 + i % 3))
                 return
             if a1[:2] != a2[:2]:
